@@ -20,6 +20,10 @@ pub fn run(thorough: bool) -> Vec<Part> {
         let limits = Limits { max_states: 6_000_000, max_secs: if thorough { 3000.0 } else { 120.0 }, ..Default::default() };
         let st = bfs(&cfg, &limits, workers());
         record(&mut part, "grammar-alphabet", &st);
+        {
+            let tl = crate::connx::stateless_sequences(&cfg, if thorough { 4 } else { 3 }, workers());
+            crate::connx::record_stateless(&mut part, &cfg.label, &tl);
+        }
         for (v, _) in &st.violations {
             part.violations.push(v.clone());
         }
